@@ -66,7 +66,7 @@ def run(db, chk) -> None:
     grid = [dict(stream=s, correlation=c, name=n) for s in (-1, 7) for c in (-1, 0, 5) for n in (ES, CS, OTHER)]
     for pi, r in enumerate(runs):
         tag = f"path {pi + 1}/{len(runs)}" + (f" [{T.show(r.cond())[:60]}]" if r.path else "")
-        ev = [e for e in r.events if e["func"] == "transform_correlation_to_index"]
+        ev = [e for e in r.events if e.get("module") == TM]
         muts = [e for e in ev if e["kind"] == "frame-mutation" and e.get("column") == "index_correlation"]
         init = [e for e in muts if e["what"] == "setcol"]
         stores = [e for e in muts if e["what"] == "loc-store"]
@@ -133,7 +133,10 @@ def run(db, chk) -> None:
         chk.ob("C02.R3-mutual-stores", f"{tag}: the frame returned is the frame that was linked", isinstance(ret, Frame) and ret.base == DF and ret.obj == init[0]["obj"] if init else False, where,
                found=repr(ret)[:80], accepted="df")
     tfm = db.mod("hta.common.trace_filter")
-    for q in ("_filter_gpu_kernels_with_cuda_sync", "GPUKernelFilter.__call__", "CPUOperatorFilter.__call__"):
+    side_funcs = ["_filter_gpu_kernels_with_cuda_sync"] + [H.resolve_method(tfm, c_, "__call__") for c_ in ("GPUKernelFilter", "CPUOperatorFilter")]
+    if None in side_funcs:
+        raise AnalysisError("anchor vanished: GPUKernelFilter / CPUOperatorFilter have no __call__ (own or inherited inside trace_filter)")
+    for q in dict.fromkeys(side_funcs):
         callees = [q] + [c for c in tfm.functions if "." not in c and any(isinstance(x, ast.Call) and H.name_id(x.func) == c for x in ast.walk(tfm.func(q)))]
         for cq in callees:
             sm = H.shared_state_mutations(tfm, tfm.func(cq))
